@@ -14,6 +14,7 @@ TEXT_ATOMS = [
     "ä€", " a ", "", "\t", "a;b", "(1;2)", "\\", "1", "true",
     "a\u2028b", "a\x85b",          # line boundaries for str.splitlines, not for csv / io
     "a\rb",                        # a lone carriage return
+    "\u00a0", "\u2003[a,b]", "a\u3000",       # white space beyond ASCII at the ends (str.strip removes it, XML does not)
 ]
 LOOKALIKES = ["yes", "null", "~", "1e3", "2020-01-01", "0x1F", ": x", "- a", "#c", "{a: b}", "|",
               "No", "1.0", "01:02:03", "[1, 2]"]
@@ -24,11 +25,11 @@ TYPED_ATOMS = {
     "int": [0, 1, -7, 10 ** 20],
     "float": [0.0, 0.1, 1.0 / 3, -1e-7, 1e22],
     "boolean": [True, False],
-    "date": [{"date": "2020-01-02"}, {"date": "1999-12-31"}],
+    "date": [{"date": "2020-01-02"}, {"date": "1999-12-31"}, {"date": "0999-12-31"}],      # a year that needs zero padding
     "time": [{"time": "01:02:03"}, {"time": "23:59:59"}, {"time_tz": "09:30:15"}],
-    "datetime": [{"datetime": "2020-01-02 03:04:05"}, {"datetime": "1999-12-31 23:59:59"},
+    "datetime": [{"datetime": "2020-01-02 03:04:05"}, {"datetime": "1999-12-31 23:59:59"}, {"datetime": "0999-12-31 23:59:59"},
                  {"datetime_tz": "2020-05-17 09:30:15"}],       # timezone-aware native objects (datetime.now(timezone.utc))
-    "2-tuple": [["1", "2"], ["a", "b c"]],
+    "2-tuple": [["1", "2"], ["a", "b c"], ["a,b", "c"], ['x"y', "<&> \u00e4"]],
     "3-tuple": [["1", "2", "3"], ["x", "y", "z"]],
 }
 STRING_DTYPES = ["string", "text", "url", "person"]
@@ -56,7 +57,10 @@ def build_property(p, parent=None):
     kw = {k: dec(v) for k, v in p.get("attrs", {}).items()}
     vals = [dec(v) for v in p.get("values", [])]
     oid = p.get("id")
-    return odml.Property(name=p["name"], values=vals if vals else None, dtype=p.get("dtype"),
+    dtype = p.get("dtype")
+    if isinstance(dtype, str) and dtype.startswith("DType."):
+        dtype = getattr(odml.DType, dtype[6:])      # the dtype given as a member of the DType enumeration
+    return odml.Property(name=p["name"], values=vals if vals else None, dtype=dtype,
                          parent=parent, oid=oid, **kw)
 
 
